@@ -8,6 +8,7 @@ package file
 //@   requires source != nil
 //@   ensures[returns-receiver] r == e
 //@   assigns obj(e)
+//@   loop 0 modifies nothing
 
 // contents is indexed in runes, so line offsets are counted in runes: each line contributes its rune count
 // plus one for the newline (C13: the snippet shown for a location is the line it names, also after a
